@@ -148,6 +148,74 @@ func (p dtoPkg) Starlark() string {
 	return sb.String()
 }
 
+// starTargetArgs renders the keyword arguments of one target except name and command.
+func starTargetArgs(t dtoTarget) string {
+	var sb strings.Builder
+	if len(t.Deps) > 0 {
+		fmt.Fprintf(&sb, "    dependencies = %s,\n", jlist(t.Deps))
+	}
+	if len(t.Inputs) > 0 {
+		fmt.Fprintf(&sb, "    inputs = %s,\n", jlist(t.Inputs))
+	}
+	if len(t.Excludes) > 0 {
+		fmt.Fprintf(&sb, "    exclude_inputs = %s,\n", jlist(t.Excludes))
+	}
+	if len(t.Outputs) > 0 {
+		fmt.Fprintf(&sb, "    outputs = %s,\n", jlist(t.Outputs))
+	}
+	if t.Bin != "" {
+		fmt.Fprintf(&sb, "    bin_output = %s,\n", jq(t.Bin))
+	}
+	if len(t.Tags) > 0 {
+		fmt.Fprintf(&sb, "    tags = %s,\n", jlist(t.Tags))
+	}
+	if len(t.Fingerprint) > 0 {
+		fmt.Fprintf(&sb, "    fingerprint = %s,\n", jmap(t.Fingerprint))
+	}
+	if len(t.Platforms) > 0 {
+		fmt.Fprintf(&sb, "    platforms = %s,\n", jlist(t.Platforms))
+	}
+	if t.Timeout != "" {
+		fmt.Fprintf(&sb, "    timeout = %s,\n", jq(t.Timeout))
+	}
+	return sb.String()
+}
+
+// StarlarkStructured renders the same package the way a hand-written Starlark package looks:
+// commands live in tables in helper modules, half of the targets are declared through a macro
+// of a module in a sub-directory, and that module and BUILD.star both load "defs.star" - the
+// same relative module string, which denotes lib/defs.star for one and ./defs.star for the
+// other. BUILD.star additionally reaches ./defs.star through its //-absolute spelling.
+// Returns file name (relative to the package directory) -> content.
+func (p dtoPkg) StarlarkStructured(macrosFirst bool) map[string]string {
+	var defsA, defsB, build strings.Builder
+	defsA.WriteString("CMDS = {\n")
+	defsB.WriteString("CMDS = {\n")
+	var body strings.Builder
+	for i, t := range p.Targets {
+		if i%2 == 0 {
+			fmt.Fprintf(&defsA, "    %s: %s,\n", jq(t.Name), jq(t.Command))
+			fmt.Fprintf(&body, "target(\n    name = %s,\n    command = %s[%s],\n%s)\n\n", jq(t.Name), []string{"CMDS", "ABS_CMDS"}[(i/2)%2], jq(t.Name), starTargetArgs(t))
+		} else {
+			fmt.Fprintf(&defsB, "    %s: %s,\n", jq(t.Name), jq(t.Command))
+			fmt.Fprintf(&body, "mk(\n    name = %s,\n%s)\n\n", jq(t.Name), starTargetArgs(t))
+		}
+	}
+	defsA.WriteString("}\n")
+	defsB.WriteString("}\n")
+	loads := []string{"load(\"defs.star\", \"CMDS\")\n", "load(\"lib/macros.star\", \"mk\")\n"}
+	if macrosFirst {
+		loads[0], loads[1] = loads[1], loads[0]
+	}
+	build.WriteString(loads[0] + loads[1] + "load(\"//pk/defs.star\", ABS_CMDS = \"CMDS\")\n\n")
+	build.WriteString(body.String())
+	for _, a := range p.Aliases {
+		fmt.Fprintf(&build, "alias(name = %s, actual = %s)\n", jq(a.Name), jq(a.Actual))
+	}
+	macros := "load(\"defs.star\", \"CMDS\")\n\ndef mk(name, **kwargs):\n    target(name = name, command = CMDS[name], **kwargs)\n"
+	return map[string]string{"BUILD.star": build.String(), "defs.star": defsA.String(), "lib/defs.star": defsB.String(), "lib/macros.star": macros}
+}
+
 // Makefile renders the targets as annotated make rules (aliases, exclude_inputs and bin_output
 // have no Makefile spelling). The command of a Makefile target is always "make <goal>".
 func (p dtoPkg) Makefile() string {
@@ -383,7 +451,7 @@ func RunC16(tier string) int {
 		_ = os.MkdirAll(m.Home, 0755)
 		return m
 	}
-	files := map[string]string{"json": "BUILD.json", "yaml": "BUILD.yaml", "star": "BUILD.star", "make": "Makefile"}
+	files := map[string]string{"json": "BUILD.json", "yaml": "BUILD.yaml", "star": "BUILD.star", "star2": "BUILD.star", "make": "Makefile"}
 
 	// (1) cross-format agreement
 	nAgree := tierN(tier, 60, 1200)
@@ -403,11 +471,20 @@ func RunC16(tier string) int {
 			fmts = append(fmts, f)
 		}
 		sort.Strings(fmts)
+		structured := p.StarlarkStructured(r.Chance(1, 2))
+		render["star2"] = structured["BUILD.star"]
+		fmts = append(fmts, "star2")
 		for _, f := range fmts {
 			ws := filepath.Join(dir, "ws-"+f)
 			if err := writePkgWS(ws, files[f], render[f]); err != nil {
 				run.Infra(err.Error())
 				return
+			}
+			if f == "star2" {
+				_ = os.MkdirAll(filepath.Join(ws, "pk", "lib"), 0755)
+				for name, content := range structured {
+					_ = os.WriteFile(filepath.Join(ws, "pk", filepath.FromSlash(name)), []byte(content), 0644)
+				}
 			}
 			res := mkMachine(dir, ws, st.Grog).Run([]string{"graph", "-o", "json", "//..."}, grog.RunOpts{Build: "g"})
 			run.Eval(1)
